@@ -9,14 +9,14 @@ class Ctx:
     def assume(self, b):
         b = b.t if isinstance(b, SymBool) else z3.BoolVal(bool(b))
         self.pc.append(b)
-        if self.solver.check(*self.pc) != z3.sat: raise PathEnd()
+        if self.solver.check(*self.pc) == z3.unsat: raise PathEnd()          # unknown is NOT infeasible: the path is kept
     def branch(self, cond):
         # follow recorded decision if any, else try True first
         if self.pos < len(self.decisions):
             d = self.decisions[self.pos]
         else:
-            t_ok = self.solver.check(*self.pc, cond) == z3.sat
-            f_ok = self.solver.check(*self.pc, z3.Not(cond)) == z3.sat
+            t_ok = self.solver.check(*self.pc, cond) != z3.unsat                 # unknown counts as feasible (never drop a path silently)
+            f_ok = self.solver.check(*self.pc, z3.Not(cond)) != z3.unsat
             if t_ok and f_ok: d = True; self.decisions.append(True)
             elif t_ok: d = "T"; self.decisions.append("T")
             elif f_ok: d = "F"; self.decisions.append("F")
